@@ -777,9 +777,41 @@ def gen(seed, tier, prop="C14"):
     return sc
 
 
+def directed_identity_tables():
+    """C16: every vendor id and every product type of the pinned tables (and their unknown neighbours) is reported by
+    a device once and asked for through ListIdentity and through the identity object"""
+    known_v = sorted(int(k) for k in pinned()["vendors"])
+    known_t = sorted(int(k) for k in pinned()["product_types"])
+    vs = sorted(set(known_v) | {v + 1 for v in known_v} | {0, 65535})
+    ts = sorted(set(known_t) | {t + 1 for t in known_t} | {0, 65535})
+    pairs = [(v, ts[i % len(ts)]) for i, v in enumerate(vs)] + [(vs[(7 * i) % len(vs)], t) for i, t in enumerate(ts)]
+    out = []
+    per = 60
+    for a in range(0, len(pairs), per):
+        ops = [{"id": "o0", "kind": "open"}]
+        for i, (v, t) in enumerate(pairs[a:a + per]):
+            idn = {"vendor": v & 0xFFFF, "product_type": t & 0xFFFF}
+            ops.append({"id": f"c{i}", "kind": "change_identity", "where": "target", "identity": idn})
+            ops.append({"id": f"l{i}", "kind": "list_identity", "cls": "CIPDriver", "path": "10.0.0.1", "host": "10.0.0.1"}
+                       if i % 2 else {"id": f"m{i}", "kind": "get_module_info", "slot": 0})
+        ops.append({"id": "oz", "kind": "close"})
+        out.append({"engine": "generic", "seed": 8000 + a, "prop": "C16",
+                    "world": {"layout": "compact", "ip": "10.0.0.1", "project": {"name": "IDT", "types": {}, "programs": {},
+                                                                               "wallclock_us": 10**15, "tags": []},
+                              "policy": {}, "identity": {"rev_major": 32, "product_name": "1769-L33ER"},
+                              "choices": {"handles": "small", "frag": "max", "page": "max"}, "objects": [],
+                              "udp_net": "192.168.1.10", "slots": 1},
+                    "net": {"chunk": "whole", "send": "all", "latency": "zero"},
+                    "driver": {"cls": "CIPDriver", "path": "10.0.0.1/bp/0", "init_tags": False, "init_program_tags": False,
+                               "log": "off", "seq_advance": 0}, "ops": ops, "faults": []})
+    return out
+
+
 def directed(tier, prop="C14"):
     """C09: sweeps of class / instance / attribute values through generic messages against a wildcard object:
     every value around the 8/16/32-bit format boundaries, and (thorough) every instance id 0..0x10100"""
+    if prop == "C16":
+        return directed_identity_tables()
     if prop != "C09":
         return []
     vals_i = sorted(set(range(0, 0x120)) | set(range(0xFFE0, 0x10020)) | set(range(0, 0x10100, 97 if tier == "quick" else 1))
